@@ -487,7 +487,8 @@ converter.register_unstructure_hook({class_name}, _unstructure_{class_name.lower
                 # A field named like a type that annotations of the same class use (`date: date | None = None`) rebinds
                 # that name inside the class body, so the next annotation mentioning the type fails when the module is
                 # imported. Such fields get a trailing underscore; the wire name is kept by the field mapping.
-                if field_name in ("date", "datetime", "time", "timedelta"):
+                # The same holds for `field`, which the class body calls for defaults (`tags: ... = field(default_factory=list)`).
+                if field_name in ("date", "datetime", "time", "timedelta", "field"):
                     field_name += "_"
 
                 # Collision detection: check if this sanitized name was already used
